@@ -80,7 +80,7 @@ def _safe_filler(filler, forbidden):
 
 
 def write_v3(tmap, chunks, blocks, cpu_info=None, filler1=b'', filler2=b'', gaps=None, pad_last=True,
-             plist_fmt='binary', hdr=None):
+             plist_fmt='binary', hdr=None, padbyte=b'\x00'):
     """chunks: list of lists of 64-byte records; blocks: list of (kind, payload-bytes).
     filler1: stackshot bytes before the stackshot end marker (may contain decoy thread-map/event tags);
     filler2: bytes between the marker and the thread-map tag; gaps[i]: bytes before the i-th event tag."""
@@ -125,7 +125,7 @@ def write_v3(tmap, chunks, blocks, cpu_info=None, filler1=b'', filler2=b'', gaps
         tag = blk[2] if len(blk) > 2 and blk[2] else TAGS[kind]       # (an unknown block may carry any tag no section uses)
         s = len(out)
         last = bi == len(blocks) - 1
-        out += _block(tag, payload, pad_to8=(pad_last or not last))
+        out += _block(tag, payload, pad_to8=(pad_last or not last), padbyte=padbyte or b'\x00')
         layout.append(('block:' + kind, s, len(out)))
     return bytes(out), layout
 
